@@ -27,5 +27,6 @@ def main(tier):
         ["Memory::read8/write8 replaced by the lazy cell model (the simulated address space itself is C05/C19's subject); a symbolic address is case-split against the known cells",
          "for the table-driven 8-bit decoders (6502, 65816, 8008, 1802, stm8, tms1000, z80) the engine enumerates the opcode byte(s) (all solver-feasible values) instead of carrying 256-way selections",
          "a step that reads more than 48 distinct initial memory cells or writes more than 48 bytes (Z80 block instructions with a long repeat count) is outside the bound (cover tag outside-bound:*)",
+         "a path with a load/store whose symbolic offset has more than 1024 feasible targets (AVR8 data space indexed by an unconstrained pointer) is given up and counted under solver_unknown_paths",
          "partial_allowed: each job explores paths in DFS order until its time budget; unexplored paths are reported as pending, not as held",
          "representation invariants assumed for the havoced state: 8008 stack index <= 7; 1802 4-bit selectors P, X, N, I <= 15; tms1000 register widths (x<=3, y,a,pa,pb<=15, pc<=63); avr8 heap pointer/size fields keep their constructed values", "stdout of the simulators is not modelled (sink); serial I/O hooks (serial_in/out NULL) as constructed by init()"])
